@@ -142,7 +142,7 @@ def deep_tree(g, kind, n):
 
 def run_shard(rec):
     quick = rec.tier == 'quick'
-    rec.deadline = time.time() + (30 if quick else 600)
+    rec.deadline = time.time() + (300 if quick else 600)
     g = forest.load_module()
     rng = rec.rng
     if rec.shard % 4 == 0:
